@@ -414,6 +414,7 @@ def C14(ctx):
     cases = ctx.export('FamilyN(p)', extends='WireNames', pre_sample=350 if ctx.quick else 5000)
     pred = names_model(ctx)
     out = ctx.run(cases, nontrivial=lambda c: c['key'] != 'N/', runtime=True, switches=ALL, collect_gen=True)
+    ctx.run(ctx.export('FamilyX(p, {"foreign-struct-sole-reference", "same-name-packages", "unnamed-params-same-type-name"})'), nontrivial=lambda c: True, runtime=True, switches=ALL)
     names_conformance(ctx, pred, out)
     ctx.run(ctx.export('FamilyX(p, {"two-unnamed-values", "two-files-ok", "multi-name-var-sets"})'), runtime=True, switches=ALL)
 
